@@ -23,7 +23,9 @@ EXPLANATION = (
     "stores t and n; DateTime::project stores self's Unix time and nanoseconds; UtcDateTime::project stores the value "
     "returned by self.unix_time() and self's nanoseconds. The Unix-time and nanosecond fields are identified as the "
     "fields returned by the public getters unix_time() and nanoseconds(). EQ-ORD-READS: PartialEq::eq and "
-    "PartialOrd::partial_cmp of DateTime read exactly those two fields of each operand."
+    "PartialOrd::partial_cmp of DateTime read exactly those two fields of each operand. SCALE (E-SCALE, see C12): no value "
+    "stored in the Unix-time field of a zoned date-time, in the search or in any constructor, is on the leap-count or the "
+    "civil scale."
 )
 
 
@@ -166,7 +168,20 @@ def check(run, tier):
             run.sample({"rule": "EQ-ORD-READS", "function": name, "fields read": (sorted(r1), sorted(r2)), "unix_time/nanoseconds field indices": (ut, ns)})
             if not ok:
                 run.finding("EQ-ORD-READS", "%s|%s" % (cfg, name), "%s reads fields %s / %s of its operands; equality and ordering must depend on exactly (Unix time, nanoseconds) = fields %s" % (name, sorted(r1), sorted(r2), sorted({ut, ns})), insts[0].get("span"))
+        # ---- SCALE (E-SCALE, shared with C12): the instant stored in a zoned date-time is on the UTC scale
+        from .. import escale as _E
+        from . import c12 as _c12
+
+        S_ = _c12.tz_seeds(f, run, cfg)
+        if S_ is not None:
+            A_ = _E.Analysis(f, S_).run()
+            mine = [x for x in A_.findings if "DateTime::unix_time" in x["u_seed"] + x["l_seed"] or "find_date_time" in x["group"] or "datetime::DateTime::" in x["group"]]
+            run.obligation(not mine)
+            run.rule("SCALE", 1, 0 if mine else 1)
+            run.sample({"rule": "SCALE", "classes seeded": A_.stats["classes_seeded"], "conflicts in the date-time constructors / the search": len(mine)})
+            A_.findings = mine
+            _c12.report(run, cfg, A_)
     run.floor("obligations", run.obligations, 12)
-    run.trusted += ["E-AI (see C07), including lemma L3 for month_day", "rustc visibility facts exported by tzmir"]
+    run.trusted += ["E-AI (see C07), including lemma L3 for month_day", "rustc visibility facts exported by tzmir", "E-SCALE (see C12)"]
     run.explanation = EXPLANATION
     run.extra["not_decided"] = ["calendar fields equal the UTC fields of (Unix time + offset)", "DateTime::new's computed Unix time", "the two struct literals inside the search (C05)"]
